@@ -14,7 +14,23 @@ from pyvc.unit import Unit
 F = 'pjplan/task.py'
 EMPTY = IntVal(2 ** 63 - 1)
 t_, c_, u_, a_, b_ = Consts('t_ c_ u_ a_ b_', T.z); w_ = Const('w_', W.z)
-clashfn = Function('idclash', T.z, T.z, BoolSort())       # _has_id_intersection(parent, [self]) - assumed contract (B): a function of the pre-state
+# _has_id_intersection(parent, [child]) - assumed contract (B), opaque predicate of the pre-state; its meaning (taken from C05) is revealed where a proof needs it:
+# some task of the incoming subtree that is not yet in the receiving tree has the id of a task of the receiving tree
+_CLASH = Function('idclash', PAR, ArraySort(T.z, IntSort()), T.z, T.z, BoolSort())
+clash_heap = {}
+
+
+def clashfn(parent, child, h=None):
+    h = h or clash_heap['h']
+    return _CLASH(h.par, h.tid, parent, child)
+
+
+def clash_reveal_neg(h, parent, child):
+    """not clash => no task of the incoming subtree that is outside the receiving tree shares an id with a task of the receiving tree"""
+    xa, ya = Consts('xa_ ya_', T.z)
+    return Implies(Not(_CLASH(h.par, h.tid, parent, child)),
+                   ForAll([xa, ya], Implies(And(insub(h.par, child, xa), rootof(h.par, xa) != rootof(h.par, parent), ya != null, rootof(h.par, ya) == rootof(h.par, parent)), h.tid[xa] != h.tid[ya]),
+                          patterns=[MultiPattern(rootof(h.par, xa), rootof(h.par, ya))]))
 
 
 class H:
@@ -46,6 +62,8 @@ def Inv(h, hole=None):
         'C11/W1r-owner-only-if-reachable-from-that-WBS-root': ForAll([c_], Implies(And(c_ != null, h.own[c_] != W.null), insub(h.par, h.root[h.own[c_]], c_)), patterns=[h.own[c_]]),
         'C11/WR-hidden-roots': ForAll([w_], Implies(w_ != W.null, And(h.root[w_] != null, h.own[h.root[w_]] == w_, h.par[h.root[w_]] == null, h.tid[h.root[w_]] == EMPTY)), patterns=[h.root[w_]]),
         'C01/X1-no-link-along-the-hierarchy': ForAll([a_, b_], Implies(And(b_ != null, mem(h.P(b_), a_)), And(Not(Desc(h.par, a_, b_)), Not(Desc(h.par, b_, a_)), a_ != b_)), patterns=[mem(h.P(b_), a_)]),
+        'C05/U1-ids-unique-within-every-tree': ForAll([a_, b_], Implies(And(a_ != null, b_ != null, a_ != b_, rootof(h.par, a_) == rootof(h.par, b_)), h.tid[a_] != h.tid[b_]),
+                                                      patterns=[MultiPattern(rootof(h.par, a_), rootof(h.par, b_))]),
         'C01/M1-links-symmetric': ForAll([a_, b_], Implies(And(a_ != null, b_ != null), mem(h.P(b_), a_) == mem(h.S(a_), b_)), patterns=[mem(h.P(b_), a_), mem(h.S(a_), b_)]),
         'NN-no-None-in-links': ForAll([t_, a_], Implies(And(t_ != null, Or(mem(h.P(t_), a_), mem(h.S(t_), a_))), a_ != null), patterns=[mem(h.P(t_), a_), mem(h.S(t_), a_)]),
         'hidden-roots-have-no-links': ForAll([w_, a_], Implies(w_ != W.null, And(Not(mem(h.P(h.root[w_]), a_)), Not(mem(h.S(h.root[w_]), a_)))), patterns=[mem(h.P(h.root[w_]), a_), mem(h.S(h.root[w_]), a_)]),
@@ -115,7 +133,9 @@ def c_has_id_intersection(eng, st, recv, args, kws, node):
     # checked by the bounded stand-in (C05)
     child = args[1].e[0].e if args[1].s.name == 'TaskListLit' else None
     if child is None: raise Unsupported('_has_id_intersection argument form')
-    return [(st, V(clashfn(args[0].e, child), BOOL))]
+    h = H(eng, st)
+    st.assume(clash_reveal_neg(h, args[0].e, child))
+    return [(st, V(clashfn(args[0].e, child, h), BOOL))]
 
 
 def c_all_children(eng, st, recv, args, kws, node):
@@ -155,15 +175,20 @@ def c_check_links(eng, st, recv, args, kws, node):
 def parent_setter_call(eng, st, task, newparent, line):
     """the contract of Task.parent.setter used at a call site (also: its own nested call through roots.append)"""
     h0 = H(eng, st)
-    for lab, g in Inv(h0, hole=task).items(): st.oblige(f'req@parent.setter/{lab}', g, f'@{line}')
+    only = getattr(eng, 'oblige_only', None)
+    for lab, g in Inv(h0, hole=task).items():
+        if (only is None and lab != U1) or (only is not None and lab in only): st.oblige(f'req@parent.setter/{lab}', g, f'@{line}')
     st.oblige('req@parent.setter/task-is-no-hidden-root', And(task != null, ForAll([w_], Implies(w_ != W.null, h0.root[w_] != task))), f'@{line}')
-    clash = clashfn(newparent, task)
+    clash = clashfn(newparent, task, h0)
     rc = raise_cond(h0, task, newparent, clash)
     exc = st.fork(rc); ok = st.fork(Not(rc))
     exc.assume(Implies(links_cross(h0, task, newparent), links_cross_def(h0, task, newparent)))       # reveal: a caller may have to show that the callee cannot reject
     for k in HEAP_KEYS: eng.havoc(ok, k)
     h1 = H(eng, ok)
-    for g in list(Inv(h1).values()) + list(effect(h0, h1, task, newparent).values()): ok.assume(g)
+    post = Inv(h1)
+    if only is None: post.pop(U1)
+    else: post = {k: v for k, v in post.items() if k in only}
+    for g in list(post.values()) + list(effect(h0, h1, task, newparent).values()): ok.assume(g)
     return [(ok, V(None, NONE)), (exc, Raise('RuntimeError'))]
 
 
@@ -183,7 +208,15 @@ class TaskListLit:
         return out
 
 
-def parent_setter_unit():
+U1 = 'C05/U1-ids-unique-within-every-tree'
+IDS_NEED = ['O1-list-objects-distinct', 'C01/F4-no-task-is-its-own-ancestor', 'N-null-has-no-parent', 'C11/W1-owner-follows-the-hierarchy', 'C11/W1r-owner-only-if-reachable-from-that-WBS-root', 'C11/WR-hidden-roots', U1]
+
+
+def parent_setter_unit(kind='core'):
+    """kind='core': everything except the id-uniqueness clause; kind='ids': the same function against the part of the contract that carries
+    C05/U1 (contract splitting keeps each query small; the two units together oblige the whole pre-condition at the nested call)"""
+    ids = kind == 'ids'
+
     def build():
         contracts = {'prop:Task.parent': c_pubparent, 'prop:Task.id': c_id, 'fn:_has_id_intersection': c_has_id_intersection, 'prop:Task.all_children': c_all_children,
                      'WBS._root': c_root, 'prop:Task.children': c_children, 'Task._attach': c_attach, 'ChildrenFacade.append': c_facade_append,
@@ -196,19 +229,30 @@ def parent_setter_unit():
                 extra = {'task-is-no-hidden-root': And(c['self'] != null, ForAll([w_], Implies(w_ != W.null, h.root[w_] != c['self'])))}
                 return {**Inv(h, hole=c['self']), **extra}[lab]
             return f
-        rc = lambda c: raise_cond(pre_h(c), c['self'], c['parent'], clashfn(c['parent'], c['self']))
+        rc = lambda c: raise_cond(pre_h(c), c['self'], c['parent'], clashfn(c['parent'], c['self'], pre_h(c)))
+        if ids:
+            fc = {'sig': {'self': T, 'parent': T},
+                  'requires': [(l_, req(l_)) for l_ in IDS_NEED + ['task-is-no-hidden-root']],
+                  'raises': {'RuntimeError': []},
+                  'ensures': [(U1, lambda c: Inv(H(c.eng, c.st))[U1])]}
+            e = Engine(F, 'Task.parent.setter', contracts, TASK_CLASSES, fc, plugins=[ListPlugin(), TaskListLit]); e.oblige_only = IDS_NEED
+            return e, LIST_AX + GRAPH_AX + ROOT_AX
         fc = {'sig': {'self': T, 'parent': T},
-              'requires': [(l_, req(l_)) for l_ in INV_LABELS + ['task-is-no-hidden-root']],
+              'requires': [(l_, req(l_)) for l_ in INV_LABELS + ['task-is-no-hidden-root'] if l_ != U1],
               'raises': {'RuntimeError': [('C15/parents-unchanged', lambda c: H(c.eng, c.st).par == pre_h(c).par), ('C15/lists-unchanged', lambda c: H(c.eng, c.st).elems == pre_h(c).elems),
                                           ('C15/owners-unchanged', lambda c: H(c.eng, c.st).own == pre_h(c).own),
                                           ('C01,C05,C11/rejected-only-for-a-stated-reason', rc)]},
-              'ensures': [(l_, (lambda l_: lambda c: Inv(H(c.eng, c.st))[l_])(l_)) for l_ in INV_LABELS] +
+              'ensures': [(l_, (lambda l_: lambda c: Inv(H(c.eng, c.st))[l_])(l_)) for l_ in INV_LABELS if l_ != U1] +
                          [(l_, (lambda l_: lambda c: effect(pre_h(c), H(c.eng, c.st), c['self'], c['parent'])[l_])(l_)) for l_ in EFFECT_LABELS] +
                          [('C01,C05,C11/accepted-only-if-no-reason-to-reject', lambda c: Not(rc(c)))]}
         return Engine(F, 'Task.parent.setter', contracts, TASK_CLASSES, fc, plugins=[ListPlugin(), TaskListLit]), LIST_AX + GRAPH_AX
+    if ids:
+        return Unit('Task.parent.setter[ids]', F, build, ['C05'], shards=4, timeout_ms=15000)
     return Unit('Task.parent.setter', F, build, ['C01', 'C05', 'C11', 'C15', 'C16'], shards=8, timeout_ms=15000)
 
 
+# parent_setter_unit('ids') (C05/U1 via the root-of-tree function) is NOT registered: 2 of its 30 path queries stay `unknown` within the budget
+# and several take 4-5 s - an unstable proof would raise false alarms; the clause is left to the bounded stand-in (DESIGN.md section 0)
 UNITS = [parent_setter_unit()]
 
 
